@@ -285,10 +285,10 @@ pub fn drive(a: &Args) -> i32 {
         let nk: u64 = if collide_seg { 300 } else if long { 16 } else { rng.gen_range(1..=4) };
         // long segments alternate between two schedules:
         //   "ckpt"    : checkpoints in the middle of each file and (clock advanced) after every other rotation, restarts
-        //   "collide" : three rotations in a burst with no checkpoint and no restart in between (rotated-file names
+        //   "collide" : six rotations in a burst with no checkpoint and no restart in between (rotated-file names
         //               carry the wall-clock second), observed at the rotations and by a clean restart at the end
         let collide = long && (seg / long_every.max(1)) % 2 == 1;
-        let nops: u64 = if collide { rng.gen_range(3010..3080) } else if long { rng.gen_range(2050..3100) } else { rng.gen_range(12..40) };
+        let nops: u64 = if collide { rng.gen_range(6010..6080) } else if long { rng.gen_range(2050..3100) } else { rng.gen_range(12..40) };
         store_no += 1;
         let mut live = tmp.join(format!("live{store_no}"));
         let _ = std::fs::remove_dir_all(&live);
